@@ -142,7 +142,7 @@ func c13Run(c *mon.Ctx) {
 					}
 				}
 				// monotone in the radius: a bigger circle around the same centre
-				if want == 1 && k%3 == 0 {
+				if answers[0].v && want == 1 && k%3 == 0 {
 					big := geojson.NewCircle(center, math.Min(piR, m*(1+r.Float64())+2*tol), steps)
 					if !big.Contains(pt) {
 						cs := mkc("monotone", "false", "true")
